@@ -15,7 +15,7 @@ package arg
 //@   ensures retyped: rv_valid(result) && rv_type(result) == typ && rv_word(result) == rv_word(v) && rv_kind(result) == rt_kind(typ) && !rv_addressable(result)
 
 //@ func toValue
-//@   props C09 C13
+//@   props C09 C13 C01
 //@   requires type: out != nil
 //@   assigns varval
 //@   ensures only_the_fresh_box_is_written: forall a uintptr :: varval[a] == old(varval[a]) || (r != nil && result1 == nil && rt_kind(out) == reflect.Interface && a == rv_addr(result0))
